@@ -683,7 +683,8 @@ def translate_procedure(src, name, known):
 # behaviour-preserving rewrites of the C text give the same Lean term:
 #   * static functions are found through the call graph from the public entry point (the mode function whose value is added
 #     to slot 0 / 1 / 2 of the output block is printed as get_free_energy / get_entropy / get_heat_capacity whatever its C name);
-#   * `static void` helpers are inlined at their call sites (pointer arguments `base + offset`, scalar arguments, casts);
+#   * `static void` helpers are inlined at their call sites (pointer arguments `base + offset`, array-typed parameters `double a[3]`,
+#     scalar arguments incl. an int64 value read from an integer array, casts);
 #   * const / pointer / scalar locals that are assigned a pure expression are substituted (`f = freqs[...]`, `t = temperatures[j]`,
 #     `fsc = tp_q + 3*j`, `const int64_t block = 3*num_temp`); scalar locals never enter the state record;
 #   * `if (!(c)) continue;` guards the rest of the loop body; an `if` whose body is a single `for` not binding a variable of the
@@ -792,10 +793,11 @@ class CanonProc:
         out = []
         for p in params_s.split(","):
             p = " ".join(p.split())
-            m = re.fullmatch(r"(const )?(double|int64_t|int) ?(\*)? ?([A-Za-z_]\w*)", p)
-            if not m:
+            m = re.fullmatch(r"(const )?(double|int64_t|int) ?(\*)? ?([A-Za-z_]\w*) ?(\[ ?\d* ?\])?", p)
+            if not m or (m.group(3) and m.group(5)):
                 raise Unsupported("%s: parameter %r" % (fname, p))
-            const, ty, ptr, nm = m.groups()
+            const, ty, ptr, nm, arr = m.groups()
+            ptr = ptr or arr  # `double tp[3]` is `double *tp`
             if ptr:
                 if ty == "double":
                     kind = "arr" if const else "outarr"
@@ -1118,7 +1120,12 @@ class CanonProc:
                                 raise Unsupported("%s: %s passes a read-only array as output" % (self.cur, name))
                             henv["ptrs"][pn] = (root, off)
                         elif pk == "nat":
-                            henv["ints"][pn] = self.iexpr(env)
+                            k3, v3 = self.peek()
+                            if k3 == "id" and v3 in env["ptrs"] and self.peek(1) == ("op", "[") and env["ptrs"][v3][0].startswith("iarr:"):
+                                # an int64 VALUE read from an integer array (e.g. the weight of the q-point): used in double arithmetic
+                                henv["dbl"][pn] = self.dexpr(env)
+                            else:
+                                henv["ints"][pn] = self.iexpr(env)
                         elif pk == "double":
                             e = self.dexpr(env)
                             if self.reads_mutable(e):
